@@ -7,6 +7,8 @@ import (
 	"os"
 	"path"
 	"path/filepath"
+
+	"github.com/tetratelabs/wazero/internal/verifhook"
 )
 
 // New returns a new Cache implemented by fileCache.
@@ -54,16 +56,22 @@ func (fc *fileCache) Add(key Key, content io.Reader) (err error) {
 			_ = os.Remove(file.Name())
 		}
 	}()
+	verifhook.Point("filecache.add.tmp-created")
+	content = verifhook.WrapReader("filecache.add.copy", content)
 	if _, err = io.Copy(file, content); err != nil {
 		return
 	}
+	verifhook.Point("filecache.add.copied")
 	if err = file.Sync(); err != nil {
 		return
 	}
+	verifhook.Point("filecache.add.synced")
 	if err = file.Close(); err != nil {
 		return
 	}
+	verifhook.Point("filecache.add.closed")
 	err = os.Rename(file.Name(), path)
+	verifhook.Point("filecache.add.renamed")
 	return
 }
 
